@@ -61,6 +61,8 @@ def judge(case, rec):
     rec.event("shape=" + "x".join(case["shape"]))
     rec.nontrivial(_is_nontrivial(case))
     parts = cube.partitions
+    for _p in parts:
+        lib.warm(_p, case.get("warmup")) if nd else None
     measure = q.get("measure")
     stats = measure["stats"] if measure else []
     attr = {"mean": "means", "sum": "sums", "stddev": "stddev", "median": "medians"}
